@@ -85,6 +85,11 @@ func init() {
 		Shards: [2]int{16, 16}, MinEvals: [2]int{30, 300},
 	})
 	reg(&propCfg{
+		ID: "C13", Level: "exploration", Race: "both",
+		Rule: "the real backtest.Backtest runs over in-memory / file-system / SQL repositories holding 1-12 generated assets (0 to LastDays-6 snapshots inside the look-back window, 0-40 older ones, dates kept >= 2 days away from the window edge so the wall clock never decides; sometimes an absent asset) x 1-8 strategies with distinct names drawn from the registry and compounds, for Workers in {1,2,3,8,16}. A mutex-protected recording Report logs Begin/AssetBegin/Write/AssetEnd/End with sequence numbers and drains the three streams; an online trace checker decides the protocol order; the multiset of (asset, strategy) written must equal the cartesian product; the drained actions/outcomes must equal, bit for bit, strategy.ComputeWithOutcome evaluated directly on the snapshots inside the window; result sets must be equal for all worker counts. The bundled DataReport (one entry per pair, outcome/action/transactions equal the direct evaluation) and HTMLReport (asset pages and index.html parsed: every pair once, outcomes %.2f equal, rows in non-increasing outcome order, first row maximal) are checked the same way; the race phase repeats the 4- and 16-worker runs in a -race build. distinct_nontrivial counts scenarios.",
+		Shards: [2]int{16, 16}, MinEvals: [2]int{20, 200},
+	})
+	reg(&propCfg{
 		ID: "C07", Level: "exploration",
 		Rule: "the real And/Or/Majority/Split/Inverse/NoLoss/StopLoss combinators (and nestings NoLoss(StopLoss), StopLoss(NoLoss), Inverse(NoLoss), NoLoss(Inverse), NoLoss(And)) wrap scripted stub strategies that replay chosen action words; the output is compared with slice models of the specified combination (votes over position-wise DENORMALISED words, split rule, swap, explicit no-loss / stop-loss state machines over (action, close)) and, independently, with two trace safety monitors (no Sell at a close not above the preceding Buy's close; a Sell at the first close <= buy*(1-pct)). Exhaustive: all tuples of k words of length n for k=1 (n<=7), k=2 (n<=4), k=3 (n<=2 quick / n<=3 thorough) x 4 closing series x 3 percentages where relevant; plus random words up to length 200 with up to 6 sub-strategies. MACD-RSI is compared with the agreement rule over its own two real sub-strategies. distinct_nontrivial counts distinct (shape, word tuple) cases with n >= 2.",
 		Exhaustive: "all k-tuples of action words over {Sell,Hold,Buy}: k=1 n<=7, k=2 n<=4, k=3 n<=2 (quick) / n<=3 (thorough), for every combinator shape",
